@@ -51,8 +51,8 @@ type c02ctx struct {
 	childIdx   map[*FuncInfo]func(ast.Expr) int
 	silent     bool // r1 only fills the maps
 	folderRule string
-	rule16     string // id under which the signed-read-of-unsigned-kinds rule reports (R02.16; C03 runs it as R03.20)
-	constOpVar types.Object       // the constOp table variable
+	rule16     string            // id under which the signed-read-of-unsigned-kinds rule reports (R02.16; C03 runs it as R03.20)
+	constOpVar types.Object      // the constOp table variable
 	constOpLit *ast.CompositeLit // its literal
 }
 
